@@ -31,6 +31,10 @@ Return(c) == /\ pc[c] = "out" /\ ret' = [ret EXCEPT ![c] = tmp[c]] /\ pc' = [pc 
              /\ UNCHANGED <<state, runner, field, tmp, starts>>
 Next == \E c \in Callers : Invoke(c) \/ Claim(c) \/ FEnd(c) \/ Pass(c) \/ Read(c) \/ Return(c)
 Spec == Init /\ [][Next]_vars
+\* Liveness: if the function that runs terminates, every Do call returns (nobody stays parked inside sync.Once)
+Fair == \A c \in Callers : WF_vars(Claim(c)) /\ WF_vars(FEnd(c)) /\ WF_vars(Pass(c)) /\ WF_vars(Read(c)) /\ WF_vars(Return(c))
+LiveSpec == Spec /\ Fair
+EveryDoReturns == \A c \in Callers : (pc[c] # "idle") ~> (pc[c] = "returned")
 \* "exactly one of those functions is invoked, exactly once"
 AtMostOneRun == starts <= 1
 \* "Every Do call returns the values that invocation returned, and returns only after that invocation has completed"
